@@ -1,4 +1,4 @@
-from specs.common import run, ASSUME_COMMON
+from specs.common import run, memcheck, ASSUME_COMMON
 
 _ALTS = ["bool", "int32", "int64", "uint32", "double", "cstring", "string_view", "span_bool", "span_int32",
          "span_int64", "span_uint32", "span_double", "span_string_view", "uint64", "span_uint64", "span_uint8"]
@@ -42,6 +42,7 @@ _thorough["links_added_after_start"] = 5000   # Span::AddLink / AddLinks (ABI v2
 SPEC = {
     "runs": [
         run("e1-model", "c04_span_export", "asan", 3000, 300000, params={"mode": "seq"}),
+        memcheck("c04_span_export", 400, 20000, params={"mode": "seq"}),
         run("e2-concurrent-end", "c04_span_export", "tsan", 1000, 60000, params={"mode": "conc"}),
         run("e1-model-abi2", "c04_span_export", "asan-abi2", 0, 60000, params={"mode": "seq"}, tiers=("thorough",)),
     ],
